@@ -614,6 +614,24 @@ func (in *interpreter) boundsCheck(t *Term, n int) {
 	}
 }
 
+// symPtr is &elems[idx] for a symbolic in-range idx over scalar elements.
+type symPtr struct {
+	elems []value
+	idx   *Term
+}
+
+// symStore writes v through a symbolic element pointer: every element becomes ite(idx==k, v, old).
+func (in *interpreter) symStore(sp symPtr, v value) {
+	c := in.ctx
+	for k := range sp.elems {
+		m, ok := in.iteValue(c.Eq(sp.idx, c.Const(sp.idx.W, uint64(k))), v, sp.elems[k])
+		if !ok {
+			panic(unsupported("store through symbolic index of unmergeable values"))
+		}
+		in.write(&sp.elems[k], m)
+	}
+}
+
 // indexValue returns elems[idx]; symbolic idx over scalar elements yields an ite chain.
 func (in *interpreter) indexValue(elems []value, idx value) value {
 	t, ok := idx.(*Term)
@@ -625,6 +643,10 @@ func (in *interpreter) indexValue(elems []value, idx value) value {
 		return elems[k]
 	}
 	in.boundsCheck(t, len(elems))
+	return in.indexValueNoCheck(elems, t)
+}
+
+func (in *interpreter) indexValueNoCheck(elems []value, t *Term) value {
 	c := in.ctx
 	// all scalars of same width?
 	var terms []*Term
